@@ -303,3 +303,134 @@ def scenario_single(c):
                                 message=None if rec["res"] is None else rec["res"].message,
                                 nit=None if rec["res"] is None else int(rec["res"].nit), nfev=None if rec["res"] is None else int(rec["res"].nfev)))
     return dict(runs=out)
+
+
+def _close(a, b, tol=1e-6):
+    a, b = np.asarray(a, float), np.asarray(b, float)
+    if a.shape != b.shape:
+        return False
+    return bool(np.allclose(a, b, rtol=tol, atol=tol * (1 + (np.max(np.abs(b)) if b.size else 0))))
+
+
+def _same_state(s1, s2, fields=("x", "fun", "jac", "nit", "sk", "yk"), tol=1e-6):
+    diffs = []
+    for f in fields:
+        a, b = s1[f], s2[f]
+        if f in ("nit", "nfev", "njev", "message", "success"):
+            if a != b:
+                diffs.append("%s: %r vs %r" % (f, a, b))
+        elif not _close(a, b, tol):
+            diffs.append("%s: %s vs %s" % (f, np.asarray(a).tolist(), np.asarray(b).tolist()))
+    return diffs
+
+
+@register("scenario_restart")
+def scenario_restart(c):
+    """C06: uninterrupted run vs stop at k + restart (no-op restart, next iterate, full continuation, chain, reduced maxcor)."""
+    out = []
+    K, k = c["K"], c["k"]
+    mc, mc2 = c.get("maxcor", 10), c.get("maxcor_restart", c.get("maxcor", 10))
+    base = dict(maxfun=10 ** 6, maxls=c.get("maxls", 20), ftol=0.0, gtol=c.get("gtol", 1e-12))
+    for name, p in problems().items():
+        bad = {}
+        U = run_once(p, dict(base, maxiter=K, maxcor=mc))
+        A = run_once(p, dict(base, maxiter=k, maxcor=mc))
+        if U["exc"] or A["exc"]:
+            out.append(dict(problem=name, error=str(U["exc"] or A["exc"])))
+            continue
+        if A["res"].message != MSG["ITER"]:
+            out.append(dict(problem=name, skipped="first leg not stopped by maxiter (%s)" % A["res"].message))
+            continue
+        ck = A["res"]
+        B0 = run_once(p, dict(base, maxiter=k, maxcor=mc2), checkpoint=copy.deepcopy(ck), x0=ck.x)
+        if B0["exc"]:
+            bad["no_exception"] = "no-op restart raised %r" % (B0["exc"],)
+        else:
+            m = min(A["snap"]["sk"].shape[0], mc2)
+            if not (_close(B0["snap"]["sk"], A["snap"]["sk"][A["snap"]["sk"].shape[0] - m:], 1e-9) and _close(B0["snap"]["yk"], A["snap"]["yk"][A["snap"]["yk"].shape[0] - m:], 1e-9)):
+                bad["C06.noop_restart_keeps_pairs"] = "restart with maxiter=%d returns sk=%s, the stopped run had sk=%s" % (k, B0["snap"]["sk"].tolist(), A["snap"]["sk"].tolist())
+        U1 = run_once(p, dict(base, maxiter=k + 1, maxcor=mc))
+        B1 = run_once(p, dict(base, maxiter=k + 1, maxcor=mc2), checkpoint=copy.deepcopy(ck), x0=ck.x)
+        if B1["exc"] or U1["exc"]:
+            bad["no_exception"] = "restart raised %r" % (B1["exc"] or U1["exc"],)
+        elif mc2 == mc:
+            d = _same_state(U1["snap"], B1["snap"], fields=("x", "fun", "jac", "nit"))
+            if d:
+                bad["C06.next_iterate_equals_uninterrupted"] = "iterate %d after a restart at %d differs from the uninterrupted run: %s" % (k + 1, k, "; ".join(d)[:400])
+                bad["C06.next_iterate_state_equal"] = bad["C06.next_iterate_equals_uninterrupted"]
+        else:
+            d = _same_state(U1["snap"], B1["snap"], fields=("nit",))
+            sku, skb = U1["snap"]["sk"], B1["snap"]["sk"]
+        B = run_once(p, dict(base, maxiter=K, maxcor=mc2), checkpoint=copy.deepcopy(ck), x0=ck.x)
+        if not B["exc"] and mc2 == mc and name.startswith("qp"):
+            d = _same_state(U["snap"], B["snap"])
+            if d:
+                bad["C06.restarted_equals_uninterrupted"] = "after %d iterations the restarted run (split at %d) differs from the uninterrupted one: %s" % (K, k, "; ".join(d)[:400])
+        if mc2 < mc and not B1["exc"] and not U1["exc"]:
+            # the pairs carried into the next iteration are the most recent ones of the stopped run
+            m = min(A["snap"]["sk"].shape[0], mc2)
+            exp = A["snap"]["sk"][A["snap"]["sk"].shape[0] - m:]
+            got = B0["snap"]["sk"] if not B0["exc"] else None
+            if got is None or not _close(got, exp, 1e-9):
+                bad["C06.reduced_memory_keeps_most_recent_pairs"] = "restart with maxcor=%d keeps sk=%s, most recent pairs are %s" % (mc2, None if got is None else got.tolist(), exp.tolist())
+        k2 = c.get("k2")
+        if k2 and mc2 == mc and name.startswith("qp"):
+            Bm = run_once(p, dict(base, maxiter=k2, maxcor=mc), checkpoint=copy.deepcopy(ck), x0=ck.x)
+            if not Bm["exc"] and Bm["res"].message == MSG["ITER"]:
+                C = run_once(p, dict(base, maxiter=K, maxcor=mc), checkpoint=copy.deepcopy(Bm["res"]), x0=Bm["res"].x)
+                if not C["exc"]:
+                    d = _same_state(U["snap"], C["snap"])
+                    if d:
+                        bad["C06.chain_of_restarts_equals_uninterrupted"] = "chain %d -> %d -> %d differs from the uninterrupted run: %s" % (k, k2, K, "; ".join(d)[:400])
+        out.append(dict(problem=name, violated=bad))
+    return dict(runs=out)
+
+
+@register("scenario_callback")
+def scenario_callback(c):
+    """C07: callback states as crash checkpoints."""
+    out = []
+    K = c["K"]
+    mc = c.get("maxcor", 10)
+    base = dict(maxfun=10 ** 6, maxls=c.get("maxls", 20), ftol=0.0, gtol=c.get("gtol", 1e-12), maxcor=mc)
+    for name, p in problems().items():
+        bad = {}
+        N = run_once(p, dict(base, maxiter=K))
+        C = run_once(p, dict(base, maxiter=K), callback_kind="false")
+        if N["exc"] or C["exc"]:
+            out.append(dict(problem=name, error=str(N["exc"] or C["exc"])))
+            continue
+        d = _same_state(N["snap"], C["snap"], fields=("x", "fun", "jac", "nfev", "njev", "nit", "sk", "yk", "message", "success"), tol=0.0)
+        if d:
+            bad["C07.callback_returning_false_does_not_alter_the_run"] = "; ".join(d)[:400]
+        for idx, st in enumerate(C["states"], start=1):
+            at_call, live = st["snap"], snap(st["live"])
+            d = _same_state(at_call, live, fields=("x", "fun", "jac", "nfev", "njev", "nit", "sk", "yk"), tol=0.0)
+            if d:
+                bad.setdefault("C07.state_unchanged_after_callback_returns", "state of callback %d changed after the callback returned: %s" % (idx, "; ".join(d)[:300]))
+            if not np.array_equal(st["xk"], at_call["x"]):
+                bad.setdefault("C07.xk_argument_equals_state_x", "callback %d: xk != state.x" % idx)
+            k = at_call["nit"]
+            if not (idx <= k <= K):
+                bad.setdefault("C07.state_nit_is_the_iteration_number", "callback %d reports nit=%d" % (idx, k))
+                bad.setdefault("C07.state_equals_result_of_run_with_maxiter_k", "callback %d reports nit=%d" % (idx, k))
+                continue
+            M = run_once(p, dict(base, maxiter=k))
+            if M["exc"]:
+                continue
+            d = _same_state(at_call, M["snap"], fields=("x", "fun", "jac", "nfev", "njev", "nit", "sk", "yk"), tol=0.0)
+            if d:
+                bad.setdefault("C07.state_equals_result_of_run_with_maxiter_k", "state after iteration %d vs result of maxiter=%d: %s" % (k, k, "; ".join(d)[:300]))
+            if k < K:
+                ckp = st["live"]
+                R1 = run_once(p, dict(base, maxiter=k + 1), checkpoint=ckp, x0=np.array(ckp.x, dtype=float))
+                M1 = run_once(p, dict(base, maxiter=k + 1))
+                if R1["exc"]:
+                    bad.setdefault("C07.restart_from_state_gives_the_next_iterate", "restart from the retained state raised %r" % (R1["exc"],))
+                elif not M1["exc"]:
+                    d = _same_state(M1["snap"], R1["snap"], fields=("x", "fun", "jac", "nit"))
+                    if d:
+                        bad.setdefault("C07.restart_from_state_gives_the_next_iterate", "restart from the state kept at iteration %d: %s" % (k, "; ".join(d)[:300]))
+                        bad.setdefault("C07.restart_from_state_equals_uninterrupted", "restart from the state kept at iteration %d: %s" % (k, "; ".join(d)[:300]))
+        out.append(dict(problem=name, violated=bad))
+    return dict(runs=out)
